@@ -49,6 +49,9 @@ pub struct Req {
 }
 
 pub struct BlkDev {
+    /// Which serial number the device reports: 13 characters, all 20 bytes used (no terminator),
+    /// or none at all.
+    pub id_variant: usize,
     pub disk: Disk,
     pub decode_errors: Vec<String>,
     pub seen: Vec<Req>,
@@ -88,6 +91,16 @@ pub fn decode(chain: &Chain, readable: &[u8]) -> Result<Req, String> {
     Ok(Req { head: chain.head, typ, sector, data_len, write_data: rdata, chain: chain.clone() })
 }
 
+pub fn device_id_bytes(variant: usize) -> Vec<u8> {
+    let mut id = match variant {
+        1 => b"lab-disk-0123456789X".to_vec(),
+        2 => vec![],
+        _ => b"lab-disk-0001".to_vec(),
+    };
+    id.resize(20, 0);
+    id
+}
+
 impl BlkDev {
     /// Executes the request with the given status; returns (bytes for the writable part, used len).
     pub fn execute(&mut self, r: &Req, status: u8) -> (Vec<u8>, u32) {
@@ -110,9 +123,7 @@ impl BlkDev {
                 }
             }
             8 => {
-                let mut id = b"lab-disk-0001".to_vec();
-                id.resize(20, 0);
-                out.extend(id);
+                out.extend(device_id_bytes(self.id_variant));
             }
             _ => {}
         }
@@ -157,7 +168,7 @@ struct V {
 impl TransportVisitor for V {
     type Out = ();
     fn visit<T: Transport + 'static>(self, t: T, w: &DWorld) {
-        let bd = Rc::new(RefCell::new(BlkDev { disk: Disk::default(), decode_errors: vec![], seen: vec![] }));
+        let bd = Rc::new(RefCell::new(BlkDev { id_variant: 0, disk: Disk::default(), decode_errors: vec![], seen: vec![] }));
         // What the device does with the next request: Some(status) = complete now, None = hold.
         let mode: Rc<RefCell<Option<u8>>> = Rc::new(RefCell::new(Some(0)));
         let co: CoRc = {
@@ -302,11 +313,15 @@ impl TransportVisitor for V {
                 3 => {
                     let st = STATUSES[deviate(4, "device status")];
                     *mode.borrow_mut() = Some(st);
-                    let mut id = [0u8; 20];
+                    let variant = choose(3, "serial number the device reports (13 characters, all 20 bytes, empty)");
+                    bd.borrow_mut().id_variant = variant;
+                    let want_id = device_id_bytes(variant);
+                    let want_len = want_id.iter().position(|b| *b == 0).unwrap_or(20);
+                    let mut id = [0xEEu8; 20];
                     let r = blk.device_id(&mut id);
                     tag("device_id");
                     match (st, r) {
-                        (0, Ok(13)) if &id[..13] == b"lab-disk-0001" => {}
+                        (0, Ok(n)) if n == want_len && id[..n] == want_id[..n] => {}
                         (0, other) => viol("device-id", format!("device_id returned {:?} / {:?}", other, id)),
                         (s, Err(e)) if Err::<(), _>(e) == expect_of(s) => {}
                         (s, other) => viol("status-mapping", format!("device_id with device status {:#x} returned {:?}", s, other)),
@@ -482,7 +497,7 @@ struct VFull {
 impl TransportVisitor for VFull {
     type Out = ();
     fn visit<T: Transport + 'static>(self, t: T, w: &DWorld) {
-        let bd = Rc::new(RefCell::new(BlkDev { disk: Disk::default(), decode_errors: vec![], seen: vec![] }));
+        let bd = Rc::new(RefCell::new(BlkDev { id_variant: 0, disk: Disk::default(), decode_errors: vec![], seen: vec![] }));
         let co: CoRc = {
             let bd = bd.clone();
             CoDevice::new(
